@@ -236,8 +236,14 @@ class ProtoExporter:
         else:
             raise TypeError(f"Un-exportable Instance {inst} of {inst.of}")
 
-        # Create its connections mapping
-        for pname, conn in inst.conns.items():
+        # Create its connections mapping, in the order of the target's ports.
+        # The order of `inst.conns` itself reflects the order in which elaboration happened to re-make the connections,
+        # which for Bundles feeding several ports follows hash-set iteration order, and differs from run to run.
+        port_order = {pname: idx for idx, pname in enumerate(inst.of.ports)}
+        conns = sorted(
+            inst.conns.items(), key=lambda kv: port_order.get(kv[0], len(port_order))
+        )
+        for pname, conn in conns:
             # Assign each item into the connections dict.
             # The proto interface requires copying it along the way
             pconn = vckt.Connection(
